@@ -292,9 +292,9 @@ func TestVerifC14(t *testing.T) {
 		t.Fatalf("unknown part %q", part)
 	}
 	deadline := rep.Deadline(10 * time.Minute)
-	for _, j := range jobs {
+	for ji, j := range jobs {
 		R := rep.New("C14", j.p.name())
-		e := &sched.Explorer{Bound: j.bound, Delay: j.delay, Shard: shard, NShards: nsh, ShardDepth: 2, Deadline: deadline}
+		e := &sched.Explorer{Bound: j.bound, Delay: j.delay, Shard: shard, NShards: nsh, ShardDepth: 2, Deadline: rep.Share(deadline, ji, len(jobs))}
 		e.Run = func(prefix []int, expect []string) *sched.Exec {
 			x, _ := c14Exec(t, j.p, prefix, expect, false)
 			return x
